@@ -183,6 +183,14 @@ def gen_cases(ctx, table, scale):
             mk("drain", [{"gen": [rng.randrange(1, 1 << 30), 12000]}], regs=regs,
                ch=[[50, 9000], [1500, 1000], [rng.randrange(2500, 4400), -1]])
         mk("late", [{"gen": [rng.randrange(1, 1 << 30), 300]}], ch=[[50, 100], [10600, -1]])
+        # the pacing dimension at millisecond grain: single bytes and small bursts at random instants, some
+        # only 0-2 ms apart, up to just before the earliest possible deadline
+        for regs in ("none", "many", "one-obfs4", "one-prefix"):
+            ts_ = sorted(rng.randrange(0, 4700) for _ in range(rng.randrange(60, 120)))
+            for j in range(0, len(ts_) - 3, 9):      # bursts: three chunks within 2 ms
+                ts_[j + 1], ts_[j + 2] = ts_[j], min(ts_[j] + rng.randrange(0, 3), ts_[j + 3])
+            mk("dribble", [{"gen": [rng.randrange(1, 1 << 30), len(ts_) + 40]}], regs=regs,
+               ch=[[t, rng.choice([1, 1, 1, 2, 5])] for t in sorted(ts_)] + [[4750, -1]])
         # the boundary of the property: the PEER closes (FIN) or resets before the deadline, after its
         # data - in the loop, while draining from the start, and after every transport has given up
         mk("peerclose", [], regs="none", ch=[], fin_ms=700)
@@ -441,7 +449,8 @@ def gen_hists(ctx, scale):
         conns = []
         for i, (kind, ge) in enumerate((("silent-timeout", "cc"), ("data-timeout", "asn"), ("noregs-data-timeout", "cc"), ("silent-fin", "asn"),
                                         ("exhaust-timeout", "cc"), ("data-rst", "cc"), ("silent-timeout", ""))):
-            c = conn(kind, 60 * i, geo=geos[i % 3], t_end=rng.randrange(800, 3000))
+            # (never the unmodified ::1 peer: all those share ONE GeoIP entry, across histories)
+            c = conn(kind, 60 * i, geo=geos[i % 3], t_end=rng.randrange(800, 3000), peer=i % 4)
             c["geo_err"] = ge
             conns.append(c)
         hists.append({"class": "geo-error", "conns": conns, "epochs": [rng.randrange(400, 700), rng.randrange(3100, 4500)], "hammer": False})
@@ -785,7 +794,7 @@ def run(ctx):
         ctx.sample({"kind": allc[i]["kind"], "regs": allc[i].get("regs_name"), "script": r.get("script"),
                     "observed": {k: r.get(k) for k in ("set_deadline", "writes", "closes", "returned", "max_lag", "unread")}})
     if not ctx.replay:
-        ctx.require_kinds(["random/ok", "lookalike/ok", "static/ok", "flip/ok", "short/ok", "unregistered/ok", "unvalidated/ok", "loworder/ok", "manychunks/ok",
+        ctx.require_kinds(["random/ok", "lookalike/ok", "static/ok", "flip/ok", "short/ok", "unregistered/ok", "unvalidated/ok", "loworder/ok", "manychunks/ok", "dribble/ok",
                            "phantom:v4", "phantom:v6", "drain/ok", "late/ok", "peerclose/ok", "validtag-wrongprefix/ok", "validtag-wrongtransport/ok", "validtag-obfs4-badmac/ok"] + ["regs:" + n for n in REGS]
                           # the peer-address dimension, crossed with the probe classes
                           + ["nonip/ok", "peer:v4/tcp", "peer:v4/tcp4", "peer:v6/tcp", "peer:v6/udp", "peer:v6/str", "peer:v4/str", "peer:v4/udp", "peer:nonip/str"]
